@@ -261,12 +261,12 @@ async fn s_namespace(h: &mut Host) -> Result<(), Fail> {
     expect_code(h.subscriber.get_subscription(GetSubscriptionRequest { subscription: "projects/other/subscriptions/ns".into() }).await, Code::NotFound, "C17+C10", "GetSubscription after a CreateSubscription rejected for its project (the rejected request changed state)")?;
     for (secs, eff) in [(0, 10), (5, 10), (10, 10), (25, 25), (-3, 10), (600, 600), (601, 601), (900, 900)] {
         let name = format!("projects/p/subscriptions/ns{}", secs + 10);
-        let created = h.sub(&name, t, secs, Some("http://localhost:1/push")).await.map_err(|e| f("C10", format!("CreateSubscription failed: {:?}", e.code())))?;
+        let created = h.sub(&name, t, secs, Some("http://localhost:1/Push/Hook?Token=AbC")).await.map_err(|e| f("C10", format!("CreateSubscription failed: {:?}", e.code())))?;
         let read = h.subscriber.get_subscription(GetSubscriptionRequest { subscription: name.clone() }).await.map_err(|e| f("C10", format!("GetSubscription of a created subscription: {:?}", e.code())))?.into_inner();
         for r in [&created, &read] {
             if r.name != name || r.topic != t { return Err(f("C10", format!("subscription read back as name={:?} topic={:?}", r.name, r.topic))); }
             if r.ack_deadline_seconds != eff { return Err(f("C10+C04", format!("ack_deadline_seconds {} created, {} reported, effective deadline is {}", secs, r.ack_deadline_seconds, eff))); }
-            if r.push_config.as_ref().map(|p| p.push_endpoint.as_str()) != Some("http://localhost:1/push") { return Err(f("C10", "push endpoint not reported back".into())); }
+            if r.push_config.as_ref().map(|p| p.push_endpoint.as_str()) != Some("http://localhost:1/Push/Hook?Token=AbC") { return Err(f("C10", format!("push endpoint \"http://localhost:1/Push/Hook?Token=AbC\" is reported back as {:?}", r.push_config.as_ref().map(|p| p.push_endpoint.clone())))); }
         }
         expect_code(h.sub(&name, t, secs, None).await, Code::AlreadyExists, "C10", "CreateSubscription of an existing name")?;
         h.subscriber.delete_subscription(DeleteSubscriptionRequest { subscription: name.clone() }).await.map_err(|e| f("C10+C11", format!("DeleteSubscription failed: {:?}", e.code())))?;
@@ -646,6 +646,28 @@ async fn s_long_walk(h: &mut Host) -> Result<(), Fail> {
         }
         if got != subs { return Err(f("C13", format!("ListSubscriptions(page_size={}) over 150 subscriptions: {} names, first difference from creation order at {:?}", size, got.len(), got.iter().zip(subs.iter()).position(|(a, b)| a != b)))); }
     }
+    // more subscriptions on one topic than the largest effective page: requested sizes above the cap must still walk on
+    for i in 150..1003 { let n = format!("projects/lw/subscriptions/s{}", i); h.sub(&n, &hub, 0, None).await.map_err(c10("CreateSubscription of an absent name on an existing topic of the same project"))?; subs.push(n); }
+    for size in [1000, 1001, 5000, i32::MAX] {
+        for which in 0..2 {
+            let mut tok = String::new();
+            let mut got: Vec<String> = Vec::new();
+            for _ in 0..10 {
+                let (names, next) = if which == 0 {
+                    let r = h.publisher.list_topic_subscriptions(ListTopicSubscriptionsRequest { topic: hub.clone(), page_size: size, page_token: tok.clone() }).await.map_err(|e| f("C13", format!("ListTopicSubscriptions: {:?}", e.code())))?.into_inner();
+                    (r.subscriptions.clone(), r.next_page_token)
+                } else {
+                    let r = h.subscriber.list_subscriptions(ListSubscriptionsRequest { project: "projects/lw".into(), page_size: size, page_token: tok.clone() }).await.map_err(|e| f("C13", format!("ListSubscriptions: {:?}", e.code())))?.into_inner();
+                    (r.subscriptions.iter().map(|x| x.name.clone()).collect(), r.next_page_token)
+                };
+                if names.len() > 1000 { return Err(f("C13", format!("a page of {} subscriptions (effective page size 1000)", names.len()))); }
+                got.extend(names);
+                tok = next;
+                if tok.is_empty() { break; }
+            }
+            if got != subs { return Err(f(if which == 0 { "C13+C11" } else { "C13" }, format!("{}(page_size={}) over 1003 subscriptions of one topic: following the tokens yields {} names (first difference from creation order at {:?})", if which == 0 { "ListTopicSubscriptions" } else { "ListSubscriptions" }, size, got.len(), got.iter().zip(subs.iter()).position(|(a, b)| a != b)))); }
+        }
+    }
     Ok(())
 }
 
@@ -996,6 +1018,32 @@ async fn s_pull_wait_delete(h: &mut Host) -> Result<(), Fail> {
         }
     }
     if empty_ok > 0 { return Err(f("C15", format!("{} of 10 unary Pulls (return_immediately=false) parked on an empty subscription returned an empty OK response right after DeleteSubscription, well before their wait limit", empty_ok))); }
+    // the topic is deleted, the subscription survives with one delivery outstanding: a Pull without return_immediately
+    // on its (now empty) queue keeps waiting and is answered with the message once it is nacked
+    let (t2, s2) = ("projects/p/topics/pwd2", "projects/p/subscriptions/pwd2x");
+    h.topic(t2).await.map_err(c10("CreateTopic of an absent, well-formed name"))?;
+    h.sub(s2, t2, 0, None).await.map_err(c10("CreateSubscription of an absent name on an existing topic of the same project"))?;
+    h.publish(t2, vec![(vec![7], HashMap::new())]).await.map_err(setup("publish"))?;
+    let held = h.pull(s2, 1, true).await.map_err(setup("pull"))?;
+    if held.len() != 1 { return Err(f("SETUP", format!("expected 1 message, got {}", held.len()))); }
+    h.publisher.delete_topic(DeleteTopicRequest { topic: t2.to_string() }).await.map_err(|e| f("C11+C10", format!("DeleteTopic failed: {:?}", e.code())))?;
+    let mut c = h.subscriber.clone();
+    let mut waiter = tokio::spawn(async move {
+        #[allow(deprecated)]
+        c.pull(PullRequest { subscription: s2.to_string(), return_immediately: false, max_messages: 1 }).await.map(|r| r.into_inner().received_messages)
+    });
+    match tokio::time::timeout(Duration::from_millis(400), &mut waiter).await {
+        Ok(Ok(Ok(m))) if m.is_empty() => return Err(f("C15", "a unary Pull (return_immediately=false) on a subscription whose topic was deleted returned an empty OK response at once, well before its wait limit".into())),
+        Ok(_) => {}
+        Err(_) => {}
+    }
+    h.modack(s2, vec![held[0].ack_id.clone()], 0).await.map_err(|e| f("C11+C05", format!("nack on a subscription whose topic was deleted failed: {:?}", e.code())))?;
+    match tokio::time::timeout(Duration::from_secs(5), &mut waiter).await {
+        Ok(Ok(Ok(m))) if m.len() == 1 => {}
+        Ok(Ok(Ok(m))) => return Err(f("C15+C11", format!("a Pull waiting on a subscription whose topic was deleted was answered with {} messages after a nack made one available", m.len()))),
+        Ok(Ok(Err(e))) => return Err(f("C11+C15", format!("a Pull on a subscription whose topic was deleted failed with {:?}", e.code()))),
+        _ => { waiter.abort(); return Err(f("C15+C06+C11", "a Pull waiting on a subscription whose topic was deleted was not answered within 5 s after a nack made a message available".into())); }
+    }
     Ok(())
 }
 
